@@ -36,6 +36,7 @@ func init() {
 			{ID: "C01.R16", Floor: 3, Run: exchangeListsAgree, Text: "generic Exchange: with and without target the same add/remove lists (= C18.R15): Remove(entity, target) adds nothing"},
 			{ID: "C01.R17", Floor: 20, Run: mapListsComplete, Text: "component lists of MapN are complete (= C18.R20): NewWith/Assign hand all N components to the core in both the target and the no-target branch"},
 			{ID: "C01.R18", Floor: 1, Run: offsetsInPointerWidth, Text: "storage offsets are computed in pointer width: no unsafe.Add receives a 32-bit product size*index (it wraps at 4 GiB per column and distinct rows share storage)"},
+			{ID: "C01.R19", Floor: 1, Run: exchangeBuilderFollowsConfig, Text: "Exchange keeps its builder in step with its configuration (= C18.R25): entities created through the builder carry the component list set last"},
 		},
 	})
 }
